@@ -15,6 +15,8 @@ PAT = re.compile(r"^\s*When CEL expression (.+) is evaluated\s*$")
 
 # A small hand-written supplement: one expression per kind of runtime failure / edge the generators reach only rarely.
 EDGE = [
+    # conversions of texts and values that are almost right
+    "bool('maybe')", "bool('TRUE')", "bool('yes')", "bool('')", "bool('True')", "bool('t')", "bool(1)", "bool(null)", "bool(1.0)", "bool('false') || true",
     # a container indexed by boundary scalars of every kind
     "[7, 8][9223372036854775808.0]", "[7, 8][1e19]", "[7, 8][-1e300]", "[7, 8][0.0]", "[7, 8][1.0]", "[7, 8][0.5]", "[7, 8][-0.0]", "[7, 8][18446744073709551615u]", "[7, 8][1u]",
     "[7, 8][9223372036854775807]", "[7, 8][-9223372036854775808]", "[7, 8][true]", "[7, 8][null]", "[7, 8]['0']", "{1: 2}[1.0]", "{1: 2}[1e19]", "{'a': 2}[0]", "'ab'[1e19]", "'ab'[0]",
